@@ -420,3 +420,8 @@ NOT_DECIDED = ["model.logp() as a function of the physical parameters (pymc tran
 from . import c09 as _C09   # noqa: E402
 from .chain import clone as _clone9   # noqa: E402
 CONTRACTS += [_clone9(_c, callees=getattr(_c, "callees", None) or _C09.CALLEES, lib=_C09.LIB, hooks=_C09.HOOKS, home="c09") for _c in ([_C09.fcm])]
+
+
+def EXTRA():
+    from . import chain as _CHX
+    return _CHX.frame_effects(PROPERTY)
